@@ -78,7 +78,7 @@ def trackedDims (pcts : List (PctIn Float)) : List Nat :=
     | none => false
 
 def buildNode (dc : DrvCfg) (dims : List Nat) (raw : List RawNode) (pods : List RawPod) (n : RawNode) : Node :=
-  let dflt : Float := if dc.dev then 0.0 else 100.0
+  let dflt : Float := Float.ofInt (dfltPct dc.dev)
   let thr : List DimThr := (List.range 3).map fun d =>
     let e := newThresholds dflt 0.0 (dc.pcts.getD d ⟨none, none, none, none⟩)
     dimThr dc.dev e (avgPct (·.usage) d raw) (avgPct (·.prodUsage) d raw) (n.cap.getD d 0)
